@@ -64,6 +64,8 @@ def clauses(up0, toks):
             bad.append(("dial-after-stop", "connection attempt after Stop returned (%s)" % t))
         elif t.startswith("!name"):
             bad.append(("wrong-name", "operating state reported under another device name (%s)" % t))
+        elif t.startswith("!hang:"):
+            bad.append(("no-dial", "the device is stuck: %s did not return (its own lock is held for good); nothing is retried" % t[6:]))
         elif t == "!attemptstuck":
             bad.append(("attempt-never-ends", "the reader accepted and never completes the handshake (silent, or talking without answering): the device is still inside "
                         "that one attempt after 80 s (its own budget is the 60 s client timeout): the attempt is never counted as failed, nothing is retried"))
@@ -595,7 +597,7 @@ def run(tier, seed, replay=None):
     # so that a scheduling hiccup of the harness is not mistaken for behaviour of the device
     final = dict(confirmed)
     n_suspects = len(suspects) + len(confirmed)
-    suspects = suspects[:60]     # enough to tell a hiccup from behaviour; keeps a badly broken tree quick
+    suspects = suspects[:60] if len(suspects) <= 100 else suspects[:16]   # a tree that broken: a handful confirms it     # enough to tell a hiccup from behaviour; keeps a badly broken tree quick
     for attempt in range(2):
         if not suspects:
             break
